@@ -184,6 +184,9 @@ pub fn gen_java(c: &mut Chooser) -> JavaState {
             None,
             Some("data:image/png;base64,iVBORw0KGgo=".to_string()),
             Some(String::new()),
+            // a real server icon: the status JSON gets far longer than 32767 bytes (the prefix counts UTF-8 bytes; the
+            // often quoted limit of 32767 is one of UTF-16 units per string and does not apply to the packet)
+            Some(format!("data:image/png;base64,{}", "iVBORw0KGgoAAAANSUhEUgAAAEAAAABA".repeat(1400))),
         ]),
         previews_chat: pick(c, &[None, Some(true), Some(false)]),
         enforces_secure_chat: pick(c, &[None, Some(true), Some(false)]),
